@@ -85,6 +85,13 @@ int main() {
     Jac(0.0, &u, &ud, &A, &d, 0, 0, 0);
     for (int i = 0; i <= NEQUATIONS; i++) printf("rowptr %%d %%ld\n", i, (long)rp[i]);
     for (int i = 0; i < NNZ; i++) printf("csr %%d %%ld %%.17g\n", i, (long)cv[i], dat[i]);
+    // second evaluation on the same matrix after SUNMatZero, which for a sparse matrix clears the values, the
+    // column indices and the row pointers (what CVODE does before every Jacobian evaluation)
+    for (int i = 0; i < NNZ; i++) { dat[i] = 0.0; cv[i] = 0; }
+    for (int i = 0; i <= NEQUATIONS; i++) rp[i] = 0;
+    Jac(0.0, &u, &ud, &A, &d, 0, 0, 0);
+    for (int i = 0; i <= NEQUATIONS; i++) printf("rowptr2 %%d %%ld\n", i, (long)rp[i]);
+    for (int i = 0; i < NNZ; i++) printf("csr2 %%d %%ld %%.17g\n", i, (long)cv[i], dat[i]);
 #endif
     printf("oob %%ld\n", verif_oob);
     return 0;
@@ -262,6 +269,10 @@ class NativeEval:
                 out["rowptr"][int(p[1])] = int(p[2])
             elif p[0] == "csr":
                 out["csr"][int(p[1])] = (int(p[2]), float(p[3]))
+            elif p[0] == "rowptr2":
+                out.setdefault("rowptr2", {})[int(p[1])] = int(p[2])
+            elif p[0] == "csr2":
+                out.setdefault("csr2", {})[int(p[1])] = (int(p[2]), float(p[3]))
             elif p[0] == "k":
                 out["k"][int(p[1])] = float(p[2])
             elif p[0] == "oob":
